@@ -193,7 +193,10 @@ Proof.
   apply p_exists_spec in Ex as (_ & Hev & _). cbn [t_ev t0] in Hev.
   destruct ex as [cur| |]; try discriminate.
   destruct (Bool.eqb cur adm).
-  { intros H. injection H as <-. unfold events. now rewrite Hev. }
+  { repeat (rewrite tick_eq; cbv beta iota zeta).
+    destruct (terr ft KOpen _) as [e4|]; [discriminate|].
+    destruct (terr ft KFsync _) as [e5|]; [discriminate|].
+    intros H. injection H as <-. apply durable_emit_fsync. }
   repeat (rewrite tick_eq; cbv beta iota zeta).
   destruct (terr ft KRename _) as [e3|]; [discriminate|].
   destruct (dlookup (u ++ ext_of cur) _) as [n|]; [|discriminate].
